@@ -49,6 +49,15 @@ func cmpClass(a, b []byte, l int) string {
 		r = "gt"
 	}
 	// is the decision opposite to what the trailing bytes alone would say?
+	nd := 0
+	for j := 0; j < l; j++ {
+		if a[j] != b[j] {
+			nd++
+		}
+	}
+	if nd == 1 {
+		return fmt.Sprintf("%s/single@%d/l%d", r, i%8, bucket(l))
+	}
 	tail := "t="
 	for j := l - 1; j > i; j-- {
 		if a[j] != b[j] {
@@ -107,6 +116,19 @@ func runC20(c *Ctx) {
 					a[j], b[j] = pat[1], pat[0]
 				}
 				doCmp(a, b, l)
+			}
+		}
+	}
+	// exactly one differing byte, everything else equal (a word-wise implementation must not lose it)
+	for _, l := range []int{1, 2, 3, 4, 5, 7, 8, 9, 12, 15, 16, 17, 24, 31, 32, 33, 40, 64} {
+		base := c.rng.Bytes(l)
+		for i := 0; i < l; i++ {
+			for _, delta := range []byte{1, 0x80, 0xff} {
+				a := append([]byte(nil), base...)
+				b := append([]byte(nil), base...)
+				b[i] = a[i] + delta
+				doCmp(a, b, l)
+				doCmp(b, a, l)
 			}
 		}
 	}
